@@ -102,7 +102,49 @@ def correspond(ctx):
     o_none = Oracle(ctx, "missing-hash-after-reconfiguration")
     for tag, inp, ok, obs, exp in none_after_reconfiguration_cases(rng, 25 if not ctx.thorough else 500):
         o_none.check(tag, ok, inp, obs, exp)
+    for tag, inp, ok, obs, exp in none_any_default_cases():
+        o_none.check(tag, ok, inp, obs, exp)
     return merge(suite, s_hist, o_none)
+
+
+def none_any_default_cases():
+    """verification against a missing hash is False whatever scheme is the context's default — the ones that cannot hash without a user
+    name or realm (postgres_md5, oracle10, msdcc, msdcc2, cisco_*, htdigest) included — with and without the caller's own keywords;
+    yields (tag, input, ok, observed, expected)"""
+    from passlib import registry
+    from passlib.context import CryptContext
+
+    from .formats_common import EXPENSIVE
+
+    for name in registry.list_crypt_handlers():
+        if name in EXPENSIVE or name in ("argon2", "django_argon2", "scrypt", "sun_md5_crypt"):
+            continue
+        try:
+            h = registry.get_crypt_handler(name)
+        except Exception:  # noqa: BLE001
+            continue
+        ck = set(getattr(h, "context_kwds", ()) or ())
+        for schemes in ([name], [name, "md5_crypt"], ["md5_crypt", name]):
+            if len(set(schemes)) != len(schemes):
+                continue
+            for kw in ({}, {"user": "u"} if "user" in ck else None, {"user": "u", "realm": "r"} if "realm" in ck else None):
+                if kw is None:
+                    continue
+                inp = {"op": "verify-none-any-default", "schemes": schemes, "kwds": kw}
+                obs = []
+                try:
+                    c = CryptContext(schemes, **({f"{name}__rounds": h.min_rounds} if "rounds" in (h.setting_kwds or ()) and name not in ("bsdi_crypt",) else {}))
+                except Exception:  # noqa: BLE001
+                    try:
+                        c = CryptContext(schemes)
+                    except Exception:  # noqa: BLE001
+                        continue
+                for call in (lambda: c.verify("pw", None, **kw), lambda: c.verify_and_update("pw", None, **kw), lambda: c.dummy_verify(), lambda: c.verify("", None, **kw)):
+                    try:
+                        obs.append(call())
+                    except Exception as e:  # noqa: BLE001
+                        obs.append(errname(e) + ": " + str(e)[:60])
+                yield ("verify-none-any-default", inp, obs == [False, (False, None), False, False], obs, [False, (False, None), False, False])
 
 
 def every_scheme_hash():
@@ -195,6 +237,9 @@ def search(ctx, broken, seeds):
     for tag, inp, ok, obs, exp in none_after_reconfiguration_cases(ctx.rng, 40):
         if not ok:
             return {"input": inp, "observed": obs, "expected": exp, "check": tag}
+    for tag, inp, ok, obs, exp in none_any_default_cases():
+        if not ok:
+            return {"input": inp, "observed": obs, "expected": exp, "check": tag}
     originals = [md5_crypt.hash("pw"), sha256_crypt.using(rounds=1000).hash("pw"), des_crypt.hash("pw"), ldap_md5.hash("pw")]
     extra = [v for _n, v in every_scheme_hash()]
     # both disabled hashers in one context, either order: enable() restores through the handler that recognises the string (the first claimer)
@@ -283,5 +328,17 @@ def search(ctx, broken, seeds):
 
 
 def replay(ctx, inp):
+    if inp.get("op") == "verify-none-any-default":
+        warnings.simplefilter("ignore")
+        from passlib.context import CryptContext
+
+        c = CryptContext(inp["schemes"])
+        obs = []
+        for call in (lambda: c.verify("pw", None, **inp.get("kwds", {})), lambda: c.verify_and_update("pw", None, **inp.get("kwds", {})), lambda: c.dummy_verify()):
+            try:
+                obs.append(call())
+            except Exception as e:  # noqa: BLE001
+                obs.append(errname(e) + ": " + str(e)[:60])
+        return {"fails": obs != [False, (False, None), False], "observed": repr(obs)}
     r = search(ctx, [], [])
     return {"fails": r is not None, "observed": r}
